@@ -49,24 +49,17 @@ Theorem C40_history_vars_actual : forall out inputs,
 Proof. exact history_vars_actual. Qed.
 Print Assumptions C40_history_vars_actual.
 
-(* Hence the full statement "a failed input never makes two of *1 *2 *3 repeat one input's result"
+(* [witness_run] (State/ReplProofs.v): the generated code run on inputs `1`, `(/ 1 0)` ends with
+   *1 = *2 = VInt 1 and *e = the ZeroDivisionError.
+   Hence the full statement "a failed input never makes two of *1 *2 *3 repeat one input's result"
    is REFUTED: inputs `1`, `(/ 1 0)`, run on the generated code, leave *1 = *2 = 1. *)
 Definition C40_full : Prop := no_repeat_full.
-Theorem C40_no_repeat_refuted :
-  ~ C40_full /\
-  match run_session witness (fun _ => None) with
-  | Some (h, _) =>
-      match observe h with
-      | Some o => r_1 o = VInt 1 /\ r_2 o = VInt 1 /\ r_e o = Some (VExc "ZeroDivisionError" 0)
-      | None => False
-      end
-  | None => False
-  end.
+Theorem C40_no_repeat_refuted : ~ C40_full /\ witness_run.
 Proof. exact (conj no_repeat_refuted witness_on_generated_code). Qed.
 Print Assumptions C40_no_repeat_refuted.
 
-(* the positive theorem's hypotheses are met by a history that exercises the shifting *)
-Theorem C40_example : forallb unfailing good_history = true /\
-  slots_are (run_abstract (fun _ => None) good_history initial) [VInt 4; VInt 3; VNone; VInt 2; VInt 1].
+(* [good_history_meets]: a 7-input history (values, None, incomplete lines) meets the hypotheses of the
+   positive theorems and ends with *1 *2 *3 = 4, 3, None *)
+Theorem C40_example : good_history_meets.
 Proof. exact good_history_ok. Qed.
 Print Assumptions C40_example.
